@@ -926,3 +926,203 @@ Example location_spec_nonvacuous :
   /\ region_adjacent_raw t_slash q_enc_slash = false
   /\ expected_location t_slash (bs "/a%2Fb") q_enc_slash = bs "https://foo.com/a%2Fb".
 Proof. vm_compute. repeat split; reflexivity. Qed.
+
+(* ------------------------------------------------------------------ *)
+(** * the Location header of the response (http.Redirect passes the URL through
+      hexEscapeNonASCII) *)
+Lemma hex_escape_ascii s : ascii s = true -> hex_escape_non_ascii s = s.
+Proof.
+  unfold ascii, hex_escape_non_ascii. induction s as [|c s IH]; intros H; [reflexivity|].
+  cbn [forallb flat_map] in *. apply andb_true_iff in H as [H1 H2]. apply N.ltb_lt in H1.
+  destruct (128 <=? c) eqn:E; [apply N.leb_le in E; lia|]. cbn [app]. now rewrite IH.
+Qed.
+Lemma should_escape_high c m : 128 <= c -> should_escape c m = true.
+Proof.
+  intros H. unfold should_escape, is_alnum, memb, host_allowed, unreserved_marks, reserved. cbn [existsb].
+  replace (c <=? 122) with false by (symmetry; apply N.leb_gt; lia).
+  replace (c <=? 90) with false by (symmetry; apply N.leb_gt; lia).
+  replace (c <=? 57) with false by (symmetry; apply N.leb_gt; lia).
+  rewrite !andb_false_r. cbn [orb].
+  repeat match goal with
+         | |- context [c =? ?k] => replace (c =? k) with false by (symmetry; apply N.eqb_neq; lia)
+         end.
+  destruct m; reflexivity.
+Qed.
+Lemma not_escaped_ascii m s : forallb (fun c => negb (should_escape c m)) s = true -> ascii s = true.
+Proof.
+  unfold ascii. induction s as [|c s IH]; intros H; [reflexivity|]. cbn [forallb] in *.
+  apply andb_true_iff in H as [H1 H2]. rewrite (IH H2), andb_true_r. apply N.ltb_lt.
+  destruct (N.lt_ge_cases c 128) as [L|G]; [exact L|]. rewrite (should_escape_high c m G) in H1. discriminate H1.
+Qed.
+Lemma alnum_ascii s : forallb is_alnum s = true -> ascii s = true.
+Proof.
+  intros H. apply (not_escaped_ascii EncPath). apply forallb_forall. intros c Hc.
+  rewrite forallb_forall in H. unfold should_escape. now rewrite (H c Hc).
+Qed.
+Lemma ascii_app a b : ascii (a ++ b) = ascii a && ascii b.
+Proof. apply forallb_app. Qed.
+Lemma ishex_lt c : ishex c = true -> c <? 128 = true.
+Proof.
+  intros H. apply N.ltb_lt. unfold ishex in H.
+  repeat match type of H with _ || _ = true => apply orb_true_iff in H as [H|H] end;
+    apply andb_true_iff in H as [_ H2]; apply N.leb_le in H2; lia.
+Qed.
+Lemma lax_lt c : memb c lax7 = true -> c <? 128 = true.
+Proof.
+  unfold lax7, memb. cbn [existsb]. intros H.
+  repeat match type of H with
+         | (c =? ?k) || _ = true =>
+             let E := fresh "E" in destruct (c =? k) eqn:E; [apply N.eqb_eq in E; subst c; reflexivity | cbn [orb] in H]
+         end.
+  discriminate H.
+Qed.
+Lemma render_ascii ts : forallb tok_ok ts = true -> ascii (render ts) = true.
+Proof.
+  induction ts as [|t ts IH]; intros H; [reflexivity|]. cbn [forallb] in H. apply andb_true_iff in H as [Ht Hts].
+  unfold render. cbn [flat_map]. fold (render ts). rewrite ascii_app, (IH Hts), andb_true_r.
+  destruct t as [c|h l]; cbn [tok_ok render_tok] in *.
+  - unfold ascii. cbn [forallb]. rewrite andb_true_r. unfold lit_ok in Ht. apply orb_true_iff in Ht as [Ht|Ht]; [|now apply lax_lt].
+    apply N.ltb_lt. destruct (N.lt_ge_cases c 128) as [L|G]; [exact L|].
+    unfold plain_byte in Ht. rewrite (should_escape_high c EncPath G) in Ht. discriminate Ht.
+  - apply andb_true_iff in Ht as [Hh _]. apply andb_true_iff in Hh as [Hh Hl].
+    unfold ascii. cbn [forallb]. now rewrite (ishex_lt h Hh), (ishex_lt l Hl).
+Qed.
+Lemma ascii_norm_path p : ascii p = true -> ascii (norm_path p) = true.
+Proof. intros H. unfold norm_path. destruct p as [|c p]; [reflexivity|]. destruct (c =? 47) eqn:E.
+  - apply N.eqb_eq in E. subst c. exact H.
+  - assert (ascii (47 :: c :: p) = true) as A by (unfold ascii in *; cbn [forallb] in *; exact H).
+    destruct c as [|pc]; [exact A|].
+    destruct pc as [pc|pc|]; try exact A; destruct pc as [pc|pc|]; try exact A;
+    destruct pc as [pc|pc|]; try exact A; destruct pc as [pc|pc|]; try exact A;
+    destruct pc as [pc|pc|]; try exact A; destruct pc as [pc|pc|]; try exact A.
+Qed.
+Lemma ascii_qs q : ascii q = true -> ascii (qs q) = true.
+Proof. intros H. unfold qs. destruct q; [reflexivity|]. unfold ascii in *. cbn [is_nil forallb] in *. exact H. Qed.
+
+Lemma expected_location_ascii t wire q :
+  tmpl_dom t = true -> req_dom t wire q = true -> ascii (expected_location t wire q) = true.
+Proof.
+  destruct t as [id sc hp0 path tq st pp code], q as [h d r qy xfp tls].
+  unfold tmpl_dom, req_dom, req_dom0, strip_consistent, expected_location, path_pat, host_pat, adjacent.
+  cbn [t_scheme t_host t_path t_query t_strip t_prepend q_host q_path q_rawpath q_query].
+  intros HT HR.
+  repeat match type of HT with _ && _ = true => let H := fresh "HT" in apply andb_true_iff in HT as [HT H] end.
+  repeat match type of HR with _ && _ = true => let H := fresh "HR" in apply andb_true_iff in HR as [HR H] end.
+  destruct (tokens wire) as [ts|] eqn:Etok; [|discriminate].
+  assert (render ts = wire) as Hw by (eapply tokens_render; [apply le_n|exact Etok]). subst wire.
+  rewrite !ascii_app. rewrite (alnum_ascii sc HT7).
+  rewrite (not_escaped_ascii EncHost _ (host_plain_replace _ h HT5 HR3)).
+  change (ascii [58;47;47]) with true. cbn [andb].
+  assert (ascii (trim_prefix (render ts) st) = true) as Atrim.
+  { unfold trim_prefix. destruct (has_prefix (render ts) st); [apply forallb_skipn|]; apply render_ascii; exact HR1. }
+  assert (ascii (if is_nil tq then qy else tq) = true) as Aq by (destruct (is_nil tq); assumption).
+  assert (forall pre post, plain pre = true -> plain post = true ->
+          ascii (norm_path (pre ++ pp ++ trim_prefix (render ts) st ++ post) ++ qs (if is_nil tq then qy else tq)) = true) as Hgen.
+  { intros pre post Hpre Hpost. rewrite ascii_app, ascii_norm_path, (ascii_qs _ Aq); [reflexivity|].
+    rewrite !ascii_app, (not_escaped_ascii EncPath pre Hpre), (not_escaped_ascii EncPath pp HT1),
+            (not_escaped_ascii EncPath post Hpost), Atrim. reflexivity. }
+  destruct (has_suffix hp0 v_path).
+  - apply Hgen; reflexivity.
+  - destruct (index path v_path) as [i|].
+    + repeat match type of HT0 with _ && _ = true => let H := fresh "HP" in apply andb_true_iff in HT0 as [HT0 H] end.
+      apply Hgen; assumption.
+    + apply andb_true_iff in HT0 as [HP _].
+      rewrite ascii_app, ascii_norm_path, (ascii_qs _ HT3); [reflexivity|]. apply (not_escaped_ascii EncPath path HP).
+Qed.
+
+(* the response of a redirect route, composed: status = the target's 3xx code, Location = the
+   template filled from THIS request as written on its request line, no upstream call *)
+Theorem response_location q cands t ou wire :
+  lookup q cands = Some (t, ou) -> is_redirect t = true -> code_ok (t_code t) = true ->
+  tmpl_dom t = true -> req_dom t wire q = true -> set_path wire = Some (q_path q, q_rawpath q) ->
+  handle q cands = RRedirect (t_code t) (expected_location t wire q) /\ upstream_calls (handle q cands) = O.
+Proof.
+  intros EL Hr Hc HT HR Hp. destruct (no_upstream_on_redirect q cands t ou EL Hr) as [H0 H1].
+  split; [|exact H0]. rewrite (H1 Hc), (location_spec t wire q HT HR Hp).
+  now rewrite (hex_escape_ascii _ (expected_location_ascii t wire q HT HR)).
+Qed.
+
+(* a non-trivial member of the domain of [location_spec]: strip, prepend, query, $host inside the
+   host, text after $path, an encoded reserved byte, raw sub-delims *)
+Definition t_full : target :=
+  mkTarget 0 (bs "https") (bs "www." ++ v_host) (bs "/bbb/" ++ v_path ++ bs "/tail") [] (bs "/foo") (bs "/pre") 307%Z.
+Definition q_full : request := mkReq (bs "foo.com:8080") (bs "/foo/a/b/(x)!") (bs "/foo/a%2Fb/(x)!") (bs "k=v&x=%20") [] false.
+Example location_spec_full_example :
+  tmpl_dom t_full = true /\ req_dom t_full (bs "/foo/a%2Fb/(x)!") q_full = true
+  /\ set_path (bs "/foo/a%2Fb/(x)!") = Some (q_path q_full, q_rawpath q_full)
+  /\ expected_location t_full (bs "/foo/a%2Fb/(x)!") q_full = bs "https://www.foo.com:8080/bbb/pre/a%2Fb/(x)!/tail?k=v&x=%20"
+  /\ handle q_full [None; Some t_full] = RRedirect 307%Z (bs "https://www.foo.com:8080/bbb/pre/a%2Fb/(x)!/tail?k=v&x=%20").
+Proof. vm_compute. repeat split; reflexivity. Qed.
+
+(* outside the domain, by net/url's own reading of paths: a request that percent-encodes one of
+   ! ' ( ) * [ ] in upper-case hex and nothing else gets it back decoded (an equivalent path) *)
+Example encoded_sub_delim_returned_decoded :
+  set_path (bs "/a%21b") = Some (bs "/a!b", [])
+  /\ req_dom t_slash (bs "/a%21b") (mkReq ex_host (bs "/a!b") [] [] [] false) = false
+  /\ url_string (build_redirect_url t_slash (mkReq ex_host (bs "/a!b") [] [] [] false)) = bs "https://foo.com/a!b".
+Proof. vm_compute. repeat split; reflexivity. Qed.
+
+(* finding F-C13-6 (open): the strip prefix matches only after decoding; the rest of the path
+   loses its encoding *)
+Definition t_strip_abc : target := mkTarget 0 (bs "https") v_host (47 :: v_path) [] (bs "/abc") [] 301%Z.
+Definition q_dec_strip : request := mkReq ex_host (bs "/abc/a/b") (bs "/%61bc/a%2Fb") [] [] false.
+Lemma strip_decoded_only_refuted :
+  exists t wire q, tmpl_dom t = true /\ req_dom0 wire q = true
+    /\ set_path wire = Some (q_path q, q_rawpath q)
+    /\ strip_decoded_only t wire q = true
+    /\ url_string (build_redirect_url t q) = bs "https://foo.com/a/b"
+    /\ expected_location_dec t wire q = bs "https://foo.com/a%2Fb".
+Proof. exists t_strip_abc, (bs "/%61bc/a%2Fb"), q_dec_strip. vm_compute. repeat split; reflexivity. Qed.
+(* the complement of region 6 inside [req_dom0] is [req_dom]: [location_spec] is the theorem on it *)
+Lemma req_dom_split t wire q : req_dom0 wire q = true -> plain (t_strip t) = true ->
+  set_path wire = Some (q_path q, q_rawpath q) ->
+  req_dom t wire q = negb (strip_decoded_only t wire q).
+Proof.
+  intros H0 Hp Hs. unfold req_dom, strip_consistent, strip_decoded_only. rewrite H0. cbn [andb].
+  unfold req_dom0 in H0. apply andb_true_iff in H0 as [_ Ht].
+  destruct (tokens wire) as [ts|] eqn:Etok; [|discriminate].
+  assert (render ts = wire) as Hw by (eapply tokens_render; [apply le_n|exact Etok]). subst wire.
+  destruct (set_path_tokens ts _ _ Ht Hs) as [Hd _]. rewrite Hd.
+  destruct (has_prefix (render ts) (t_strip t)) eqn:E.
+  - destruct (strip_tokens (t_strip t) Hp ts E) as [ts2 ->].
+    rewrite decode_app, decode_lit, has_prefix_app. reflexivity.
+  - destruct (has_prefix (decode ts) (t_strip t)); reflexivity.
+Qed.
+
+(* the self-redirect test against an independent reading of "own host" (case-insensitive,
+   default port optional): whatever Lookup skips does point back at the request *)
+Lemma is_self_sound_norm u q : is_self u q = true -> points_back_norm u q = true.
+Proof.
+  unfold is_self, points_back_norm. intros H. apply andb_true_iff in H as [H Hp]. apply andb_true_iff in H as [Hs Hh].
+  apply beq_eq in Hs, Hh. change (eff_scheme q) with (own_scheme q) in Hs.
+  rewrite Hp, Hs, Hh, !beq_refl. reflexivity.
+Qed.
+(* the converse fails by spelling only, and costs one extra hop, not a loop: FOO.com is sent to
+   the template's foo.com, and the follow-up request to foo.com is skipped *)
+Definition q_host_x (h : string) : request := mkReq (bs h) (bs "/x") [] [] [] false.
+Example host_spelling_one_hop :
+  handle (q_host_x "FOO.com") [Some t_back; Some t_upstream] = RRedirect 301%Z (bs "http://foo.com/x")
+  /\ points_back_norm (build_redirect_url t_back (q_host_x "FOO.com")) (q_host_x "FOO.com") = true
+  /\ handle (q_host_x "foo.com:80") [Some t_back; Some t_upstream] = RRedirect 301%Z (bs "http://foo.com/x")
+  /\ points_back_norm (build_redirect_url t_back (q_host_x "foo.com:80")) (q_host_x "foo.com:80") = true
+  /\ handle (q_host_x "foo.com") [Some t_back; Some t_upstream] = RProxy 1.
+Proof. vm_compute. repeat split; reflexivity. Qed.
+
+(* from the option text to the status: a target whose code came out of the option parser and is
+   a redirect target has a 3xx code *)
+Lemma option_code_ok opt t : t_code t = redirect_code opt -> is_redirect t = true -> code_ok (t_code t) = true.
+Proof.
+  intros E Hr. unfold is_redirect in Hr. apply negb_true_iff, Z.eqb_neq in Hr.
+  destruct (code_range opt) as [H0|[H1 H2]]; [congruence|].
+  unfold code_ok. rewrite E. apply andb_true_iff. split; apply Z.leb_le; assumption.
+Qed.
+Theorem response_from_option q cands t ou wire opt :
+  lookup q cands = Some (t, ou) -> is_redirect t = true -> t_code t = redirect_code opt ->
+  tmpl_dom t = true -> req_dom t wire q = true -> set_path wire = Some (q_path q, q_rawpath q) ->
+  handle q cands = RRedirect (redirect_code opt) (expected_location t wire q)
+  /\ (300 <= redirect_code opt <= 399)%Z /\ upstream_calls (handle q cands) = O.
+Proof.
+  intros EL Hr Ec HT HR Hp. assert (Hc := option_code_ok opt t Ec Hr).
+  destruct (response_location q cands t ou wire EL Hr Hc HT HR Hp) as [H1 H2]. rewrite <- Ec.
+  repeat split; auto; unfold code_ok in Hc; apply andb_true_iff in Hc as [A B]; apply Z.leb_le in A, B; assumption.
+Qed.
